@@ -75,8 +75,8 @@ seeded changes and which check catches which in §11.
   | K1 | `core::ch_width` | `ch_width(c) <= c.len_utf8()` for all 1,112,064 scalar values (Kani, loop-free) | C10, C05, C04 |
 
 * **Genuine defects found and repaired** (five `fix:` commits in `/repo`, §5): F1 (C02), F2 (C08), F5 (C20/C04) were
-  convicted by Verus obligations on the pinned text *and* by BEC; F3 (C11) and F4 (C18) by BEC. Three further findings
-  (KF1–KF3) are recorded as open known findings with reasons (§5).
+  convicted by Verus obligations on the pinned text *and* by BEC; F3 (C11) and F4 (C18) by BEC. Four further findings
+  (KF1–KF4) are recorded as open known findings with reasons (§5).
 * **What stays bounded.** Optimality proper in C03 (needs real arithmetic and total monotonicity), the relational
   statements (C09 independence, C13 end to end, C14, the round trip of C15/C16, agreement of `fill_inplace` with `wrap`,
   C08's second sentence), the real
@@ -93,7 +93,7 @@ w("""## 2. Architecture
   check                  ./check <Cxx> [--tier quick|thorough] [--seed N] | --replay <file>     (exit 0 / 1 VIOLATION / 2 undecided)
   setup.sh               builds bec in both feature flavours, warms Verus up
   MANIFEST.json          generated by tools/mkmanifest.py from tools/props.py
-  known_findings.json    fixed: F1–F5 (five `fix:` commits in /repo); open: KF1, KF2, KF3
+  known_findings.json    fixed: F1–F5 (five `fix:` commits in /repo); open: KF1, KF2, KF3, KF4
   contracts/u*.vrs       side-cars, one per unit (table in §0)
   contracts/prelude/     shared pieces (`//@include`): Options / LineEnding extracted from /repo, ANSI spec (`skip_len`, `dw`, `strip`),
                          UTF-8 position lemmas (`fresh.vrs`), ASCII-boundary lemmas, `lines()` byte model
@@ -257,6 +257,12 @@ still a VIOLATION):
   A two-line repair in `unfill` (no separator while the collected text is empty) made both contracts hold, but upstream's
   own test `refill::tests::unfill_only_prefixes_issue_466` pins the stray space (`unfill("######\\nfoo").0 == " foo"`), and the
   suite must pass unedited — so the repair was reverted and the finding recorded.
+* **KF4 (C18).** A line whose own text ends in a carriage return directly before its line break: `dedent("a\\r\\r\\n b") == "a\\r\\n b"`,
+  and `dedent` of that is `"a\\n b"`. `dedent` reads lines with `str::lines` (which drops one `"\\r\\n"` or `"\\n"`) and writes every
+  line back followed by `"\\n"`, so the leftover `"\\r"` and the new `"\\n"` read as a CRLF the second time: the corollary
+  "dedent is idempotent" fails on such input, although the margin rule (which U9 proves) holds on both applications. Found by the
+  sampled long-string pass (the exhaustive alphabet had `"\\r\\n"` but no lone `"\\r"`). Not repaired: dropping the stray CR or
+  preserving the original line endings both change documented behaviour.
 
 ## 6. Applicability statement
 
@@ -314,6 +320,7 @@ w("""## 9. Departures from the original plan
 | C02 BEC | `"aa-"` is 3 columns at width 2 with the hyphen-inserting custom splitter | check wrong: C02 quantifies over the hyphen / no-hyphen splitters only | custom splitter removed from C02's grid |
 | C02 BEC | indent wider than the width + zero-width rest with a break opportunity | **code violates the letter of C02** | known finding KF1 (§5), class-tagged |
 | C15/C16 BEC | round trip fails with `break_words` on and an indent-only first line | **code violates C15/C16** | repair tried, upstream test pins the behaviour, reverted; known findings KF2/KF3 (§5) |
+| C18 BEC (new sampled pass) | `dedent` not idempotent on `"a\\r\\r\\n b"` | **code violates the corollary stated in C18** | known finding KF4 (§5), class-tagged |
 | Verus → property mapping | a failed `requires` of a prelude callee was attributed to C04 only | machinery wrong | tags are read on any line of the failing span; `requires` lines carry tags |
 | probe | a `//@probe` inside `({ let …;` produced a syntax error that was reported as vacuity | machinery wrong | probe compile errors are distinguished from a verifying probe |
 | U1 / U11 | rlimit under some SMT seeds (would have been *undecided*, not an alarm) | proof brittle | opaque state predicate + step lemmas; lemma split |
